@@ -10,6 +10,7 @@ use crate::deriv::{sentence, DashDash, Gen, OrderStyle, SpellStyle};
 use crate::gen::GenOpts;
 use crate::json::J;
 use crate::outcome::*;
+use crate::spec::*;
 
 pub fn opts() -> GenOpts {
     let mut o = GenOpts::general();
@@ -32,6 +33,10 @@ const REVS: &[usize] = &[0, 1, 7, 8, 9];
 
 fn signature_of(o: &Outcome, mode: &str) -> String {
     match o {
+        Outcome::Panic(m) if m.contains("adjacent should start with a required argument") => {
+            "panic:usage-bug-accepted-by-check-invariants:adjacent-group-without-first-item"
+                .to_string()
+        }
         Outcome::Panic(m) => {
             // key on the panic site, not on the message payload
             let site = m.rsplit(" @ ").next().unwrap_or("?");
@@ -61,6 +66,20 @@ pub fn run_case(case: &mut Case) {
         spec
     };
     let mut spec = spec;
+    if rng.chance(1, 40) {
+        // `construct!(pure(..), flag).adjacent()`: documented as a usage bug, but it is a parser
+        // that passes `check_invariants`
+        if let Spec::Seq(fields) = &mut spec.root {
+            let flag = Spec::Item(Item {
+                id: 900_002,
+                names: Names::long("adjacent-after-pure"),
+                help: None,
+                leaf: Leaf::ReqFlag,
+            });
+            let g = Spec::Adj(vec![Spec::Pure(900_001), flag]);
+            fields.insert(0, Spec::wrap(W::Optional { catch: false }, 900_003, g));
+        }
+    }
     if rng.chance(1, 3) {
         // multi-paragraph help texts with indented and fenced code blocks
         crate::emit::decorate(&mut spec.root, &mut rng);
